@@ -1,4 +1,4 @@
-From Verif Require Import Lib.Base WriteLog.Model WriteLog.MapFacts WriteLog.Proofs WriteLog.ProofsApply.
+From Verif Require Import Lib.Base WriteLog.Model WriteLog.MapFacts WriteLog.Proofs WriteLog.ProofsApply WriteLog.PathLog WriteLog.PathLogProofs.
 From Coq Require Import Permutation.
 
 (* The write log built at commit, applied to the old contents, gives exactly
@@ -72,11 +72,12 @@ Print Assumptions revive_roundtrip.
 Theorem apply_known_root :
   forall (digest : Type) (digest_eqb : digest -> digest -> bool),
   (forall a b, digest_eqb a b = true <-> a = b) ->
-  forall (root_of : kvmap -> digest) (d : db digest) (src dst : root digest) (wl : writelog) (old : kvmap),
+  forall (root_of : kvmap -> digest) (strict : bool) (fin : option N) (d : db digest) (src dst : root digest) (wl : writelog) (old : kvmap),
   follows digest dst src = true ->
   has_root digest digest_eqb root_of d dst = false ->
   open_root digest digest_eqb root_of d src = Some old ->
-  (snd (apply digest digest_eqb root_of d src dst wl) = AOk <->
+  is_finalized fin (r_version dst) = false ->
+  (snd (apply digest digest_eqb root_of strict fin d src dst wl) = AOk <->
    root_of (apply_writelog old wl) = r_hash dst).
 Proof. exact apply_known_root_lem. Qed.
 Print Assumptions apply_known_root.
@@ -84,32 +85,32 @@ Print Assumptions apply_known_root.
 Theorem apply_error_unchanged :
   forall (digest : Type) (digest_eqb : digest -> digest -> bool),
   (forall a b, digest_eqb a b = true <-> a = b) ->
-  forall (root_of : kvmap -> digest) (d : db digest) (src dst : root digest) (wl : writelog),
-  snd (apply digest digest_eqb root_of d src dst wl) <> AOk ->
-  fst (apply digest digest_eqb root_of d src dst wl) = d.
+  forall (root_of : kvmap -> digest) (strict : bool) (fin : option N) (d : db digest) (src dst : root digest) (wl : writelog),
+  snd (apply digest digest_eqb root_of strict fin d src dst wl) <> AOk ->
+  fst (apply digest digest_eqb root_of strict fin d src dst wl) = d.
 Proof. exact apply_error_unchanged_lem. Qed.
 Print Assumptions apply_error_unchanged.
 
 Theorem apply_rejected_no_root :
   forall (digest : Type) (digest_eqb : digest -> digest -> bool),
   (forall a b, digest_eqb a b = true <-> a = b) ->
-  forall (root_of : kvmap -> digest) (d : db digest) (src dst : root digest) (wl : writelog),
-  snd (apply digest digest_eqb root_of d src dst wl) = AMismatch \/
-  snd (apply digest digest_eqb root_of d src dst wl) = AOther ->
-  fst (apply digest digest_eqb root_of d src dst wl) = d /\
-  has_root digest digest_eqb root_of (fst (apply digest digest_eqb root_of d src dst wl)) dst = false.
+  forall (root_of : kvmap -> digest) (strict : bool) (fin : option N) (d : db digest) (src dst : root digest) (wl : writelog),
+  snd (apply digest digest_eqb root_of strict fin d src dst wl) = AMismatch \/
+  snd (apply digest digest_eqb root_of strict fin d src dst wl) = AOther ->
+  fst (apply digest digest_eqb root_of strict fin d src dst wl) = d /\
+  has_root digest digest_eqb root_of (fst (apply digest digest_eqb root_of strict fin d src dst wl)) dst = false.
 Proof. exact apply_rejected_no_root_lem. Qed.
 Print Assumptions apply_rejected_no_root.
 
 Theorem apply_ok_persisted :
   forall (digest : Type) (digest_eqb : digest -> digest -> bool),
   (forall a b, digest_eqb a b = true <-> a = b) ->
-  forall (root_of : kvmap -> digest) (d : db digest) (src dst : root digest) (wl : writelog),
-  snd (apply digest digest_eqb root_of d src dst wl) = AOk ->
-  has_root digest digest_eqb root_of (fst (apply digest digest_eqb root_of d src dst wl)) dst = true /\
-  (fst (apply digest digest_eqb root_of d src dst wl) = d \/
+  forall (root_of : kvmap -> digest) (strict : bool) (fin : option N) (d : db digest) (src dst : root digest) (wl : writelog),
+  snd (apply digest digest_eqb root_of strict fin d src dst wl) = AOk ->
+  has_root digest digest_eqb root_of (fst (apply digest digest_eqb root_of strict fin d src dst wl)) dst = true /\
+  (fst (apply digest digest_eqb root_of strict fin d src dst wl) = d \/
    exists old, open_root digest digest_eqb root_of d src = Some old /\
-     fst (apply digest digest_eqb root_of d src dst wl) = d ++ [(dst, apply_writelog old wl)] /\
+     fst (apply digest digest_eqb root_of strict fin d src dst wl) = d ++ [(dst, apply_writelog old wl)] /\
      root_of (apply_writelog old wl) = r_hash dst).
 Proof. exact apply_ok_persisted_lem. Qed.
 Print Assumptions apply_ok_persisted.
@@ -119,24 +120,24 @@ Print Assumptions apply_ok_persisted.
 Theorem stored_roots_hash_to_contents :
   forall (digest : Type) (digest_eqb : digest -> digest -> bool),
   (forall a b, digest_eqb a b = true <-> a = b) ->
-  forall (root_of : kvmap -> digest) (reqs : list (request digest)) (r : root digest) (m : kvmap),
-  In (r, m) (apply_all digest digest_eqb root_of [] reqs) -> root_of m = r_hash r.
+  forall (root_of : kvmap -> digest) (strict : bool) (reqs : list (request digest)) (r : root digest) (m : kvmap),
+  In (r, m) (apply_all digest digest_eqb root_of strict [] reqs) -> root_of m = r_hash r.
 Proof. exact stored_roots_hash_to_contents_lem. Qed.
 Print Assumptions stored_roots_hash_to_contents.
 
 Theorem corrupted_log_rejected :
   forall (digest : Type) (digest_eqb : digest -> digest -> bool),
   (forall a b, digest_eqb a b = true <-> a = b) ->
-  forall (root_of : kvmap -> digest) (d : db digest) (src dst : root digest)
+  forall (root_of : kvmap -> digest) (strict : bool) (fin : option N) (d : db digest) (src dst : root digest)
          (wl' : writelog) (old new : kvmap),
   follows digest dst src = true ->
   has_root digest digest_eqb root_of d dst = false ->
   open_root digest digest_eqb root_of d src = Some old ->
   r_hash dst = root_of new ->
   apply_writelog old wl' <> new ->
-  (snd (apply digest digest_eqb root_of d src dst wl') = AMismatch /\
-   fst (apply digest digest_eqb root_of d src dst wl') = d /\
-   has_root digest digest_eqb root_of (fst (apply digest digest_eqb root_of d src dst wl')) dst = false)
+  (snd (apply digest digest_eqb root_of strict fin d src dst wl') = AMismatch /\
+   fst (apply digest digest_eqb root_of strict fin d src dst wl') = d /\
+   has_root digest digest_eqb root_of (fst (apply digest digest_eqb root_of strict fin d src dst wl')) dst = false)
   \/ (exists x y : kvmap, x <> y /\ root_of x = root_of y).
 Proof. exact corrupted_log_rejected_lem. Qed.
 Print Assumptions corrupted_log_rejected.
@@ -146,17 +147,18 @@ Print Assumptions corrupted_log_rejected.
 Theorem sync_reaches_end_root :
   forall (digest : Type) (digest_eqb : digest -> digest -> bool),
   (forall a b, digest_eqb a b = true <-> a = b) ->
-  forall (root_of : kvmap -> digest) (d : db digest) (src dst : root digest)
+  forall (root_of : kvmap -> digest) (strict : bool) (fin : option N) (d : db digest) (src dst : root digest)
          (old : kvmap) (ops : list op) (wl : writelog),
   sorted old ->
   follows digest dst src = true ->
   open_root digest digest_eqb root_of d src = Some old ->
+  is_finalized fin (r_version dst) = false ->
   r_hash dst = root_of (contents (run_batch old ops)) ->
   Permutation (commit_writelog (run_batch old ops)) wl ->
-  snd (apply digest digest_eqb root_of d src dst wl) = AOk /\
-  has_root digest digest_eqb root_of (fst (apply digest digest_eqb root_of d src dst wl)) dst = true /\
+  snd (apply digest digest_eqb root_of strict fin d src dst wl) = AOk /\
+  has_root digest digest_eqb root_of (fst (apply digest digest_eqb root_of strict fin d src dst wl)) dst = true /\
   (has_root digest digest_eqb root_of d dst = false ->
-   fst (apply digest digest_eqb root_of d src dst wl) = d ++ [(dst, contents (run_batch old ops))]).
+   fst (apply digest digest_eqb root_of strict fin d src dst wl) = d ++ [(dst, contents (run_batch old ops))]).
 Proof. exact sync_reaches_end_root_lem. Qed.
 Print Assumptions sync_reaches_end_root.
 
@@ -179,3 +181,86 @@ Theorem appended_entry_differs : forall (old : kvmap) (wl : writelog) (k : bytes
   apply_writelog old (wl ++ [(k, x)]) <> apply_writelog old wl.
 Proof. exact appended_entry_differs_lem. Qed.
 Print Assumptions appended_entry_differs.
+
+(* an Apply from a start root the database does not hold fails, nothing is stored *)
+Theorem unknown_start_rejected :
+  forall (digest : Type) (digest_eqb : digest -> digest -> bool),
+  (forall a b, digest_eqb a b = true <-> a = b) ->
+  forall (root_of : kvmap -> digest) (strict : bool) (fin : option N) (d : db digest) (src dst : root digest) (wl : writelog),
+  follows digest dst src = true ->
+  has_root digest digest_eqb root_of d dst = false ->
+  open_root digest digest_eqb root_of d src = None ->
+  snd (apply digest digest_eqb root_of strict fin d src dst wl) <> AOk /\
+  fst (apply digest digest_eqb root_of strict fin d src dst wl) = d.
+Proof. exact unknown_start_rejected_lem. Qed.
+Print Assumptions unknown_start_rejected.
+
+(* nothing is stored into a version that is already finalized *)
+Theorem finalized_version_rejected :
+  forall (digest : Type) (digest_eqb : digest -> digest -> bool),
+  (forall a b, digest_eqb a b = true <-> a = b) ->
+  forall (root_of : kvmap -> digest) (strict : bool) (fin : option N) (d : db digest) (src dst : root digest) (wl : writelog),
+  has_root digest digest_eqb root_of d dst = false ->
+  is_finalized fin (r_version dst) = true ->
+  snd (apply digest digest_eqb root_of strict fin d src dst wl) <> AOk /\
+  fst (apply digest digest_eqb root_of strict fin d src dst wl) = d.
+Proof. exact finalized_version_rejected_lem. Qed.
+Print Assumptions finalized_version_rejected.
+
+(* hashed log revival in any order *)
+Theorem revive_perm : forall (new : kvmap) (hl hl' : list hentry),
+  Permutation hl hl' -> forall wl, revive new hl = Some wl ->
+  exists wl', revive new hl' = Some wl' /\ Permutation wl wl'.
+Proof. exact revive_perm_lem. Qed.
+Print Assumptions revive_perm.
+
+Theorem revive_any_order_correct : forall (old : kvmap) (ops : list op) (hl' : list hentry),
+  sorted old ->
+  Permutation (make_hashed (commit_writelog (run_batch old ops))) hl' ->
+  exists wl', revive (contents (run_batch old ops)) hl' = Some wl' /\
+              Permutation (commit_writelog (run_batch old ops)) wl' /\
+              apply_writelog old wl' = contents (run_batch old ops).
+Proof. exact revive_any_order_correct_lem. Qed.
+Print Assumptions revive_any_order_correct.
+
+(* ---- pathbadger's path-keyed internal write log ---- *)
+Theorem pathbadger_log_roundtrip :
+  forall (st : nstore) (rootnode : option snode) (endv : N) (al : list aentry),
+  (forall k v p, In (k, Some (v, p)) al ->
+     exists n, node_at st rootnode endv p = Some n /\ leaf_from_db n = (k, Some v)) ->
+  resolve st rootnode endv (make_internal al) = Some (strip al).
+Proof. exact pathbadger_log_roundtrip_lem. Qed.
+Print Assumptions pathbadger_log_roundtrip.
+
+Theorem pathbadger_served :
+  forall (pos_of : bytes -> dbkey) (rootnode : option snode) (endv : N) (old : kvmap) (ops : list op),
+  NoDup (map pos_of (map fst (contents (run_batch old ops)))) ->
+  Forall (fun k => pos_of k <> (endv, INDEX_ROOT)) (map fst (contents (run_batch old ops))) ->
+  (forall k, In k (map fst (commit_writelog (run_batch old ops))) -> ptr_invalid old ops k = false) ->
+  pb_served pos_of rootnode endv old ops = Some (commit_writelog (run_batch old ops)).
+Proof. exact pathbadger_served_lem. Qed.
+Print Assumptions pathbadger_served.
+
+Theorem pathbadger_unservable :
+  forall (pos_of : bytes -> dbkey) (rootnode : option snode) (endv : N) (old : kvmap) (ops : list op)
+         (k v : bytes),
+  Forall (fun k => pos_of k <> invalid_ptr) (map fst (contents (run_batch old ops))) ->
+  endv <> VERSION_INVALID ->
+  In (k, Some v) (commit_writelog (run_batch old ops)) -> ptr_invalid old ops k = true ->
+  pb_served pos_of rootnode endv old ops = None.
+Proof. exact pathbadger_unservable_lem. Qed.
+Print Assumptions pathbadger_unservable.
+
+(* the known finding: "every committed batch's log can be served" is refuted
+   by the faithful port (contents {"c","ca"}, batch Insert("c","") unchanged) *)
+Theorem pathbadger_log_unservable_refuted :
+  exists (pos_of : bytes -> dbkey) (rootnode : option snode) (endv : N) (old : kvmap) (ops : list op),
+    sorted old /\
+    NoDup (map pos_of (map fst (contents (run_batch old ops)))) /\
+    Forall (fun k => pos_of k <> invalid_ptr /\ pos_of k <> (endv, INDEX_ROOT))
+           (map fst (contents (run_batch old ops))) /\
+    commit_writelog (run_batch old ops) = [([99], Some [])] /\
+    apply_writelog old (commit_writelog (run_batch old ops)) = contents (run_batch old ops) /\
+    pb_served pos_of rootnode endv old ops = None.
+Proof. exact pathbadger_log_unservable_refuted_lem. Qed.
+Print Assumptions pathbadger_log_unservable_refuted.
